@@ -63,8 +63,10 @@ Prefixes ==
       <<o("h1", "B", "d1"), w("h1", "c0"), cl("h1"), o("h2", "A", "mp"), w("h2", "c0"), cad("h2"), om("h3", "B", "d1", "ReOpenExisting")>>,
       <<o("h1", "A", "d1"), w("h1", "c1"), o("h2", "B", "mp"), cl("h1"), cl("h2"), cad("h2")>>,
       \* calls through a handle whose bucket was deleted through another one, then calls through a third
-      <<o("h1", "A", "mem"), o("h2", "A", "mem"), o("h3", "A", "mem"), w("h1", "c0"), cad("h1"), sf("h2", "c0", "f1", "dump"), w("h3", "c0")>>,
-      <<o("h1", "B", "d1"), o("h2", "B", "d1"), o("h3", "B", "d1"), w("h1", "c1"), cad("h1"), sf("h2", "c1", "f1", "ckpt"), w("h3", "c1"), w("h2", "c0")>> }
+      \* (the handles have been used before, so they hold their collections)
+      <<o("h1", "A", "mem"), o("h2", "A", "mem"), o("h3", "A", "mem"), w("h2", "c0"), w("h3", "c0"), cad("h1"), sf("h2", "c0", "f1", "dump"), w("h3", "c0")>>,
+      <<o("h1", "B", "d1"), o("h2", "B", "d1"), o("h3", "B", "d1"), w("h2", "c1"), w("h3", "c1"), w("h3", "c0"), cad("h1"), sf("h2", "c1", "f1", "dump"),
+        w("h3", "c1"), sf("h3", "c0", "f2", "mdump")>> }
 (* every prefix is an initial state: the simulator picks one of them for each behaviour *)
 GenInit == \E pre \in Prefixes :
               /\ S = ApplySeq(Init0, pre, 1) /\ steps = Len(pre)
